@@ -391,6 +391,13 @@ func TestPropTableSample(t *testing.T) {
 			if q.H.Kind == "meta-permissions" && q.Method == http.MethodHead {
 				q.Method = http.MethodGet
 			}
+			if rapid.IntRange(0, 5).Draw(t, "unclean") == 0 {
+				// a request path that is not clean; without session cookie and authenticator, whose use the session
+				// model would have to guess
+				q.Unclean = rapid.SampledFrom([]string{"dot", "dotdot", "dupslash"}).Draw(t, "uncleankind")
+				q.Cookie, q.AuthSpec = "", ""
+				stats.Class("request_path_not_clean")
+			}
 			res, o, ok := w.stepStable(t, q)
 			if !ok {
 				stats.Warn("key configuration never settled, request skipped")
